@@ -314,8 +314,10 @@ def impersonate(
     if signature.ip_version != WILDCARD and packet.version != signature.ip_version:
         raise ValueError("Can't convert between IPv4 and IPv6")
 
+    ip = packet[ScapyIPv4] if ScapyIPv4 in packet else packet[ScapyIPv6]
+
     return (
-        _impersonate_ip(packet, signature, extra_hops)
+        _impersonate_ip(ip, signature, extra_hops)
         / _impersonate_tcp(tcp, signature, mtu, uptime)
         / _impersonate_payload(tcp, signature)
     )
